@@ -727,6 +727,9 @@ def _j(x):
 
 
 def _slices(n, pieces):
+    """Slices of range(n); with pieces=None one slice per first index (the first ones are the most expensive)."""
+    if pieces is None:
+        return [(i, i + 1) for i in range(n)]
     b = sorted({round(n * j / pieces) for j in range(pieces + 1)})
     return [(x, y) for x, y in zip(b, b[1:]) if x < y]
 
@@ -737,12 +740,12 @@ def run(tier, seed):
     if tier == "quick":
         for k in (1, 2, 3):
             n = len(int_rules(3, 3))
-            tasks += [("A-exh", 3, 3, k, lo, hi, seed) for lo, hi in _slices(n, 1 if k == 1 else 30)]
+            tasks += [("A-exh", 3, 3, k, lo, hi, seed) for lo, hi in _slices(n, 1 if k == 1 else None)]
         for i in range(32):
             tasks.append(("A-rnd", 4, 3, 5, 500, seed * 1000 + i))
         for k in (1, 2, 3):
             n = len(stub_rules(3, 2))
-            tasks += [("B-exh", 3, 2, k, lo, hi, seed) for lo, hi in _slices(n, 1 if k == 1 else 39)]
+            tasks += [("B-exh", 3, 2, k, lo, hi, seed) for lo, hi in _slices(n, 1 if k == 1 else None)]
         for i in range(32):
             tasks.append(("B-rnd", 4, 3, 5, 600, seed * 1000 + 100 + i))
         bound = ("Part A (tree_searcher on integer rule dictionaries, every root): EXHAUSTIVE sets of <=3 rules over 3 labels, "
@@ -755,15 +758,15 @@ def run(tier, seed):
     else:
         for k in (1, 2, 3, 4):
             n = len(int_rules(3, 3))
-            tasks += [("A-exh", 3, 3, k, lo, hi, seed) for lo, hi in _slices(n, 1 if k == 1 else 60)]
+            tasks += [("A-exh", 3, 3, k, lo, hi, seed) for lo, hi in _slices(n, 1 if k == 1 else None)]
         for k in (1, 2, 3):
             n = len(int_rules(4, 3))
-            tasks += [("A-exh", 4, 3, k, lo, hi, seed) for lo, hi in _slices(n, 1 if k == 1 else 140)]
+            tasks += [("A-exh", 4, 3, k, lo, hi, seed) for lo, hi in _slices(n, 1 if k == 1 else None)]
         for i in range(64):
             tasks.append(("A-rnd", 4, 3, 6, 4000, seed * 1000 + i))
         for k in (1, 2, 3, 4):
             n = len(stub_rules(3, 2))
-            tasks += [("B-exh", 3, 2, k, lo, hi, seed) for lo, hi in _slices(n, 1 if k == 1 else 39)]
+            tasks += [("B-exh", 3, 2, k, lo, hi, seed) for lo, hi in _slices(n, 1 if k == 1 else None)]
         for i in range(64):
             tasks.append(("B-rnd", 4, 3, 6, 5000, seed * 1000 + 100 + i))
         bound = ("Part A (tree_searcher on integer rule dictionaries, every root): EXHAUSTIVE sets of <=4 rules over 3 labels "
@@ -773,6 +776,10 @@ def run(tier, seed):
                  "Part B (RuleDB with stub rules, has_specification after every add): EXHAUSTIVE sets of <=4 rules over 3 "
                  "labels, arity 0..2, single-child rules one-way and two-way, EVERY insertion order, every start label, "
                  "recursive and iterative pack; SEEDED 320000 histories of 2..6 rules over 4 labels, arity 0..3, both packs")
+    # expensive tasks first: exhaustive slices with many rules and a small first index
+    tasks.sort(key=lambda t: (0, -t[3], t[4]) if t[0].endswith("exh") else (1, 0, 0))
+    tasks = [t for t in tasks if t[0] == "B-exh"][:12] + [t for t in tasks if t[0] != "B-exh"] + \
+        [t for t in tasks if t[0] == "B-exh"][12:]
     ctx = multiprocessing.get_context("fork")
     with ctx.Pool(NPROC) as pool:
         results = pool.map(_worker, tasks, chunksize=1)
